@@ -51,6 +51,7 @@ FIELD_TYPES = {
     # C14/C04 ghost quantities standing for the sums the engine does not unfold (see contracts/c14.py)
     ('SupvisorsInstanceStatus', 'ghost_load'): INT,
     ('Context', 'ghost_node_load'): TDict(STR, INT),
+    ('Starter', 'ghost_node_requests'): TDict(STR, INT),
 }
 
 # keys of payload records (Dict[str, Any] with literal keys) -> type
@@ -78,5 +79,6 @@ def install(world):
     reg.externals['time.monotonic'] = Builtin('ext:time.monotonic')
     reg.externals['time.time'] = Builtin('ext:time.time')
     reg.externals['math.ceil'] = Builtin('ext:math.ceil')
+    reg.externals['supervisor.events.Tick5Event.period'] = 5    # class constant of supervisor.events.Tick5Event
     for k, v in dict(CRIT=50, ERRO=40, WARN=30, INFO=20, DEBG=10, TRAC=5, BLAT=3).items():
         reg.externals[f'supervisor.loggers.LevelsByName.{k}'] = v
